@@ -764,6 +764,10 @@ func verifySeal(native *native.NativeService, header *types.Header, ctx *Context
 		}
 	}
 
+	if _, ok := snap.Signers[signer]; !ok {
+		return fmt.Errorf("msc Handler SyncBlockHeader, unauthorized signer %s", signer.Hex())
+	}
+
 	if lastSeenHeight > 0 {
 		limit := uint64(len(snap.Signers)/2) + 1
 		if header.Number.Uint64() < lastSeenHeight+limit {
